@@ -10,6 +10,7 @@ import Librfn.Driver.MessageqConc
 import Librfn.Driver.Bintree
 import Librfn.Driver.PT
 import Librfn.Driver.HB
+import Librfn.Driver.Sched
 
 def main (args : List String) : IO UInt32 :=
   match args with
@@ -25,4 +26,5 @@ def main (args : List String) : IO UInt32 :=
   | "bintree" :: rest => Librfn.Driver.Bintree.main rest
   | "pt" :: rest => Librfn.Driver.PT.main rest
   | "hb" :: rest => Librfn.Driver.HB.main rest
+  | "sched" :: rest => Librfn.Driver.Sched.main rest
   | _ => do IO.eprintln "usage: librfn_model <engine> [args]"; return 2
